@@ -61,7 +61,12 @@ class MemDatagramTransport(asyncio.DatagramTransport):
     def deliver(self, data: bytes, addr: tuple[str, int]) -> None:
         """Deliver a datagram like a selector loop: a ready handle behind what is already ready."""
         if not self.closed:
-            self.loop.call_soon(self.protocol.datagram_received, data, addr)
+            self.loop.call_soon(self._read_ready, data, addr)
+
+    def _read_ready(self, data: bytes, addr: tuple[str, int]) -> None:
+        # like _SelectorDatagramTransport._read_ready: nothing is delivered once the transport was closed
+        if not self.closed:
+            self.protocol.datagram_received(data, addr)
 
 
 class MemStreamTransport(asyncio.Transport):
@@ -107,7 +112,11 @@ class MemStreamTransport(asyncio.Transport):
     # harness side -----------------------------------------------------
     def deliver(self, data: bytes) -> None:
         if not self.closed:
-            self.loop.call_soon(self.protocol.data_received, data)
+            self.loop.call_soon(self._read_ready, data)
+
+    def _read_ready(self, data: bytes) -> None:
+        if not self.closed:
+            self.protocol.data_received(data)
 
     def lose(self, exc: Exception | None = None) -> None:
         """The peer closed / the connection broke."""
@@ -153,6 +162,9 @@ class VLoop(base_events.BaseEventLoop):
         return task
 
     async def create_datagram_endpoint(self, protocol_factory: Any, local_addr: Any = None, remote_addr: Any = None, sock: Any = None, **kw: Any) -> Any:  # type: ignore[override]
+        # a real loop resolves the address in an executor: the caller is suspended for at least one iteration, so
+        # callbacks already scheduled (e.g. connection_lost of a socket closed just before) run first
+        await asyncio.sleep(0)
         if self.udp_connect_error is not None:
             err = self.udp_connect_error()
             if err is not None:
@@ -176,6 +188,8 @@ class VLoop(base_events.BaseEventLoop):
         return tr, protocol
 
     async def create_connection(self, protocol_factory: Any, host: Any = None, port: Any = None, **kw: Any) -> Any:  # type: ignore[override]
+        await asyncio.sleep(0)  # getaddrinfo + sock_connect always take at least one iteration
+        await asyncio.sleep(0)
         if self.tcp_connect_error is not None:
             err = self.tcp_connect_error()
             if err is not None:
